@@ -23,11 +23,25 @@ def extract(repo):
     if not re.search(r"PaymentType::Invoice\s*=>\s*INVOICE_PRUNE_TIME", pt) or \
        not re.search(r"PaymentType::Keysend\s*=>\s*KEYSEND_PRUNE_TIME", pt):
         raise ExtractError("prune_time: unexpected arms")
+    # HTLC trim threshold of `validate_commitment_tx` (policy-commitment-outputs-trimmed)
+    tu = strip_comments(read(repo, "vls-core/src/util/transaction_utils.rs"))
+    min_dust = int_expr(const_value(tu, "MIN_DUST_LIMIT_SATOSHIS"))
+    sv = strip_comments(read(repo, "vls-core/src/policy/simple_validator.rs"))
+    vb = body_after(sv, r"fn\s+validate_commitment_tx\s*\(")
+    for side, w in (("offered", "htlc_timeout_tx_weight"), ("received", "htlc_success_tx_weight")):
+        if not re.search(r"let\s+%s_htlc_dust_limit\s*=\s*if\s+setup\.is_zero_fee_htlc\(\)\s*\{\s*MIN_CHAN_DUST_LIMIT_SATOSHIS\s*\}\s*"
+                         r"else\s*\{\s*MIN_DUST_LIMIT_SATOSHIS\s*\+\s*\(\s*info\.feerate_per_kw\s+as\s+u64\s*\*\s*%s\(&setup\.features\(\)\)\s*/\s*1000\s*\)\s*\}" % (side, w), vb):
+            raise ExtractError("validate_commitment_tx: unexpected shape of %s_htlc_dust_limit" % side)
+        if not re.search(r"if\s+htlc\.value_sat\s*<\s*%s_htlc_dust_limit\s*\{\s*policy_err!\(\s*self\s*,\s*\"policy-commitment-outputs-trimmed\"" % side, vb):
+            raise ExtractError("validate_commitment_tx: the %s-HTLC trim refusal is not where it was" % side)
     lean = ("namespace VlsModel.Gen.Payments\n"
+            f"def minDustLimit : Nat := {min_dust}\n"
             f"def invoicePruneTime : Nat := {inv}\n"
             f"def keysendPruneTime : Nat := {key}\n"
             f"def keysendExpiry : Nat := {kexp}\n"
             "end VlsModel.Gen.Payments\n")
     return {"Payments.lean": lean}, {"C06": {"facts": {"INVOICE_PRUNE_TIME": inv, "KEYSEND_PRUNE_TIME": key,
-                                                        "keysend_expiry_secs": kexp},
+                                                        "keysend_expiry_secs": kexp,
+                                                        "MIN_DUST_LIMIT_SATOSHIS": min_dust,
+                                                        "htlc_trim_threshold": "MIN_DUST_LIMIT_SATOSHIS + feerate_per_kw * htlc_{timeout,success}_tx_weight / 1000, strict <, tag policy-commitment-outputs-trimmed"},
                                              "obligations": []}}
